@@ -3,7 +3,7 @@
 P="$1"; shift
 git -C /repo apply "$P" || exit 3
 for pid in "$@"; do
-  /verif/check "$pid" | grep -E "^(FINDING|VIOLATION|TOOL|KNOWN|$pid tier)" | cut -c1-500
+  /verif/check "$pid" | grep -E "^(FINDING|TOOL|$pid tier)" | cut -c1-500
 done
 git -C /repo checkout -- .
 git -C /repo status --short | head -3
